@@ -137,7 +137,7 @@ var c13Rules = []c13Rule{
 	c13R(`^connect end stream JSON: metadata\[".*"\]: value #\d+ is not a valid HTTP field value: ".*"$`, "cs:meta-value"),
 	c13R(`^connect end stream JSON: invalid key ".*"$`, "cs:invalid-key"),
 	// generic JSON layer (examineJSON)
-	c13R(`^connect (error|end stream) JSON(: details\[\d+\])?: (\S+: )?contains duplicate key ".*"$`, "json:duplicate-key"),
+	c13R(`^connect (error|end stream) JSON(: details\[\d+\])?: (.*: )?contains duplicate key ".*"$`, "json:duplicate-key"),
 	c13R(`^connect (error|end stream) JSON(: details\[\d+\])?: expecting an object but got <nil>$`, "json:null"),
 	c13R(`^connect (error|end stream) JSON(: details\[\d+\])?: json: cannot unmarshal .*$`, "json:type"),
 	c13R(`^connect (error|end stream) JSON(: details\[\d+\])?: .*$`, "json:syntax"),
@@ -146,8 +146,24 @@ var c13Rules = []c13Rule{
 	c13R(`^unable to examine wire details: .*$`, "wire:unavailable"),
 }
 
-func c13Class(msg string) string {
+// c13ConnectRules: the rules for the messages of the Connect JSON examiners (they all start
+// with "connect "), so that those messages are not tried against the other fifty expressions.
+var c13ConnectRules = func() []c13Rule {
+	var out []c13Rule
 	for _, r := range c13Rules {
+		if strings.HasPrefix(r.re.String(), "(?s)^connect ") {
+			out = append(out, r)
+		}
+	}
+	return out
+}()
+
+func c13Class(msg string) string {
+	rules := c13Rules
+	if strings.HasPrefix(msg, "connect ") {
+		rules = c13ConnectRules
+	}
+	for _, r := range rules {
 		if r.re.MatchString(msg) {
 			return r.cls
 		}
